@@ -114,6 +114,10 @@ func (p *Persister) Save(key string) error {
 		logg.Tracef("state and cache flushed from persister")
 		p.Memory.Reset()
 		p.Memory.Pop()
+		// Reset keeps the limits of the symbols it drops and nothing clears the last value:
+		// neither may stay behind for the session that uses the persister next
+		p.Memory.Sizes = make(map[string]uint16)
+		p.Memory.LastValue = ""
 		p.State = p.State.CloneEmpty()
 	}
 	return nil
